@@ -26,6 +26,11 @@ int main(void)
 #else
     printf("Definition h_stateless_tickets : bool := false.\n");
 #endif
+#ifdef SERVER_WILL_ACCEPT_EMPTY_CLIENT_CERT_MSG
+    printf("Definition h_server_accepts_empty_client_cert : bool := true.\n");
+#else
+    printf("Definition h_server_accepts_empty_client_cert : bool := false.\n");
+#endif
 #if defined(USE_PSK_CIPHER_SUITE) && defined(USE_DHE_CIPHER_SUITE)
     printf("Definition h_psk_and_dhe_suites : bool := true.\n");
 #else
